@@ -29,7 +29,8 @@ prop("C04", "inbound QoS 0/1/2 flows", "exploration",
      "the reference automaton's. Non-trivial = the sequence releases a stored QoS2 message, retransmits a QoS2 PUBLISH or "
      "repeats a PUBREL; distinct = FNV-64 of the case JSON.",
      [dict(tests="^TestVerifC04_Flows$", checks_quick=6000, checks_thorough=180000, shards=12,
-           fuzz=[dict(target="FuzzVerifC04", time="180s", workers=8)])],
+           fuzz=[dict(target="FuzzVerifC04", time="180s", workers=8)]),
+      dict(tests="^TestVerifC04_Flows$", race=True, checks_quick=800, checks_thorough=9000, shards=4)],
      assumptions=["the broker re-uses an in-flight QoS2 packet id only to retransmit the same message (conforming broker)",
                   "a PUBCOMP in reply to an unknown PUBREL is permitted but not required"])
 
@@ -67,7 +68,8 @@ prop("C06", "arbitrary broker bytes never crash the client", "exploration",
       dict(tests="^TestVerifC06_ReadPacket$", checks_quick=8000, checks_thorough=120000, shards=6, as_limit_gb=8,
            fuzz=[dict(target="FuzzVerifC06ReadPacket", time="180s", workers=4)]),
       dict(tests="^TestVerifC06_Connected$", checks_quick=4000, checks_thorough=120000, shards=6, as_limit_gb=8),
-      dict(tests="^TestVerifC06_InFlight$", checks_quick=3000, checks_thorough=90000, shards=4)],
+      dict(tests="^TestVerifC06_InFlight$", checks_quick=3000, checks_thorough=90000, shards=4),
+      dict(tests="^TestVerifC06_ViaRetry$", checks_quick=1200, checks_thorough=15000, shards=6)],
      assumptions=["only the malformed classes listed in the property are asserted to end the link (e.g. an over-long PUBACK body is not)",
                   "ill-formed UTF-8 and encoded surrogates in topics are 'don't care' (accepting or rejecting both pass)"])
 
@@ -121,7 +123,8 @@ prop("C19", "errors keep their cause and their retry handle", "exploration",
      "client re-issues the same request (strictly decoded) and succeeds when acknowledged. Non-trivial = chain depth >= 2 with "
      ">= 1 library wrapper / every retry case; distinct = FNV-64 of the case JSON.",
      [dict(tests="^TestVerifC19_Chains$", checks_quick=30000, checks_thorough=1200000, shards=6),
-      dict(tests="^TestVerifC19_Retry$", checks_quick=3000, checks_thorough=90000, shards=8)],
+      dict(tests="^TestVerifC19_Retry$", checks_quick=3000, checks_thorough=90000, shards=8),
+      dict(tests="^TestVerifC19_ResponseTimeout$", checks_quick=500, checks_thorough=9000, shards=6)],
      assumptions=["error types outside the stated domain (pointer-to-non-struct errors, uncomparable value errors) are not generated",
                   "nodes hidden behind an opaque layer or reachable only via the reflection fallback are not asserted either way"])
 
